@@ -56,6 +56,7 @@ Ltac fin_step fin_tac :=
   | |- fin (bind _ _) => apply fin_bind; [| intros ? ?]
   | |- fin (seg _ _) => apply fin_map_err
   | |- fin (rewrap _ _) => apply fin_map_err
+  | |- fin (rewrap_path _) => apply fin_map_err
   | |- fin (map_err _ _) => apply fin_map_err
   | |- fin (mapMi _ _ _) => apply fin_mapMi; intros ? ? ?
   | |- fin (mapM _ _) => apply fin_mapM; intros ? ?
